@@ -27,6 +27,9 @@ def make(tt, S, origin, real):
     raise ValueError(origin)
 
 
+CASTS = ("to_dtype", "to_both", "to_pos")
+
+
 def handler(st, opts):
     case, res = st["case"], st["res"]
     if case["op"] == "init":
@@ -67,9 +70,11 @@ def handler(st, opts):
             elif op == "clone_c": Y = X.clone()
             elif op == "detach": Y = X.detach()
             elif op == "cpu": Y = X.cpu()
-            elif op == "to_dtype":
+            elif op in CASTS:
                 tgt = {torch.float64: torch.float32, torch.float32: torch.float64, torch.complex128: torch.complex64}[dt]
-                Y = X.to(dtype=tgt)
+                Y = X.to(dtype=tgt) if op == "to_dtype" else (X.to(device=torch.device("cpu"), dtype=tgt) if op == "to_both" else X.to("cpu", tgt))
+            elif op == "to_device": Y = X.to("cpu")
+            elif op == "to_none": Y = X.to()
             elif op == "numpy": Y = X.numpy()
         except Exception as e:   # noqa
             problems.append(P("exception", "raised %s: %s" % (type(e).__name__, str(e)[:200]), {"exc": type(e).__name__}))
@@ -105,18 +110,18 @@ def handler(st, opts):
         if [int(r) for r in Y.R] != [int(r) for r in X.R] or Y.is_ttm != X.is_ttm or list(Y.N) != list(X.N):
             problems.append(P("descriptor", "reported R/N/is_ttm differ: %s %s vs %s %s" % (Y.R, Y.N, X.R, X.N)))
         want_dt = dt
-        if op == "to_dtype":
+        if op in CASTS:
             want_dt = {torch.float64: torch.float32, torch.float32: torch.float64, torch.complex128: torch.complex64}[dt]
         if {c.dtype for c in Y.cores} != {want_dt}:
             problems.append(P("dtype", "dtype %s, expected %s" % ({c.dtype for c in Y.cores}, want_dt)))
-        if op in ("save_load", "clone_c", "detach", "cpu"):
+        if op in ("save_load", "clone_c", "detach", "cpu", "to_device", "to_none"):
             for k, (a, b) in enumerate(zip(X.cores, Y.cores)):
                 if a.shape != b.shape or a.dtype != b.dtype or \
                         a.detach().resolve_conj().contiguous().numpy().tobytes() != b.detach().resolve_conj().contiguous().numpy().tobytes():
                     problems.append(P("cores", "core %d is not bit-identical after %s" % (k, op)))
                     break
         got = project.dense(Y.cores)
-        if op == "to_dtype":
+        if op in CASTS:
             ref = pre_dense.to(want_dt)
             if not torch.equal(got, project.dense([c.to(want_dt) for c in X.cores])):
                 # value must be the cast value (contraction of cast cores)
